@@ -616,6 +616,9 @@ func (w *World) helperInline(root *ssa.Function, opaque ...*ssa.Function) func(s
 
 // unit: root plus the private helpers it reaches through static calls (depth <= 3).
 func (w *World) unit(root *ssa.Function) map[*ssa.Function]bool {
+	if root == nil {
+		return map[*ssa.Function]bool{}
+	}
 	out := map[*ssa.Function]bool{root: true}
 	inl := w.helperInline(root)
 	var rec func(fn *ssa.Function, d int)
